@@ -17,6 +17,8 @@ pub enum Family {
     Timeouts,
     /// like mixed, with permits handed out before anybody waits: hooks that run to their end without suspending
     Eager,
+    /// many identical failures in a row: the actor is stopped early, then dozens of the same operation
+    Flood,
     /// the shutdown window: a backlog, then stop() (also on a full mailbox), then traffic, kill, drops
     /// and ticks while the marker travels and while on_stop is suspended
     Shutdown,
@@ -31,6 +33,7 @@ pub fn family_of(name: &str) -> Option<Family> {
         "timeouts" => Family::Timeouts,
         "shutdown" => Family::Shutdown,
         "eager" => Family::Eager,
+        "flood" => Family::Flood,
         _ => return None,
     })
 }
@@ -50,7 +53,7 @@ const CAPS: &[usize] = &[1, 1, 2, 3, 4, 8, 32, 33];
 impl Gen {
     pub fn new(seed: u64, family: Family) -> Self {
         let mut rng = Rng::new(seed);
-        let len = 20 + rng.below(70) as usize;
+        let len = if family == Family::Flood { 50 + rng.below(30) as usize } else { 20 + rng.below(70) as usize };
         Gen { rng, family, len, emitted: 0, phase: 0, closing_gates: 0, closing_ticks: 0 }
     }
 
@@ -243,6 +246,23 @@ impl Gen {
                 3 => format!("stop {}", self.pick_handle(w, true)),
                 _ => format!("kill {}", self.pick_handle(w, true)),
             },
+            Family::Flood => {
+                if self.emitted <= 2 {
+                    "gate".to_string()
+                } else if self.emitted == 3 {
+                    format!("{} 0", if self.len % 2 == 0 { "stop" } else { "kill" })
+                } else if self.emitted <= 6 {
+                    "gate".to_string()
+                } else {
+                    // one operation kind per script, repeated: the same actor, operation and reason every time
+                    match self.len % 4 {
+                        0 => "tell 0 ok".to_string(),
+                        1 => "ask 0 ok".to_string(),
+                        2 => "tellt 0 15 ok".to_string(),
+                        _ => "askt 0 15 ok".to_string(),
+                    }
+                }
+            }
             Family::Eager => match self.rng.weighted(&[6, 14, 3, 1, 1, 8, 1, 1]) {
                 0 => "gate".to_string(),
                 1 => self.send_line(w),
